@@ -26,6 +26,12 @@ def run_alt(patch, name, checks, tier=None, keep=False, seed=None):
             res[c] = {"exit": p.returncode, "lines": lines}
             print("check", c, "exit", p.returncode, lines[:3], flush=True)
     finally:
+        # keep the replay files of what was reported (the worktree goes away)
+        rp = os.path.join(wt, ".verif-out", "replays")
+        if os.path.isdir(rp) and any(not f.startswith(".") for f in os.listdir(rp)):
+            dst = "/tmp/sweep/alt-replays/" + name
+            subprocess.run(["rm", "-rf", dst]); os.makedirs(os.path.dirname(dst), exist_ok=True)
+            subprocess.run(["cp", "-r", rp, dst])
         if not keep:
             subprocess.run(["git", "-C", "/repo", "worktree", "remove", "--force", wt], stdout=subprocess.DEVNULL, stderr=subprocess.DEVNULL)
     return res
